@@ -197,3 +197,9 @@ def r09_6(ctx):
     av = [c for c in walk_no_nested(t.node) if is_call_to(c, "add_variables", "self")]
     ok = len(ap) == 1 and len(av) == 1 and sc.order[ap[0]] < sc.order[av[0]]
     ctx.check(ok, "global parameters exist before the horizon is evaluated", detail="order in phase 1", expected="add_parameter before add_variables", found="", fi=t)
+
+
+@rule("R09.7", min_instances=40, desc="column k of a per-interval parameter is what the evaluators substitute at interval/node k; at the final node the extra column of include_last parameters (the last column otherwise)")
+def r09_7(ctx):
+    from .c04 import check_evaluator_slots
+    check_evaluator_slots(ctx)
